@@ -116,6 +116,11 @@ type internalError struct {
 	origError         error
 }
 
+// Unwrap makes the original error reachable for errors.Is / errors.As.
+func (i *internalError) Unwrap() error {
+	return i.origError
+}
+
 func (i *internalError) Error() string {
 	sb := strings.Builder{}
 	sb.WriteString(string("[" + i.typ + "]\n"))
